@@ -1,9 +1,17 @@
 import Driver.Util
 import Slock.Model.Text
+import Slock.Model.TextCmd
+import Slock.Model.TextMd5
 /-! Driver commands for M-TEXT (byte strings are hex, `-` = empty):
   textparse <chunk>,<chunk>,…        → <cmd>|<cmd>|…;<done|pending|err|panic>   (cmd = <arg>,<arg>,… ; `()` = no args; `none` = no command)
   textbuild <arg>,<arg>,…  (or `()`)  → hex of BuildRequest
   textresp <0|1> <msg> <res>,… | ()   → hex of BuildResponse
+  lockkey <hex> / lockid <hex>        → 16-byte hex (ConvertString2LockKey / ConvertArgId2LockId)
+  textlock <db> <ptimeout> <args>     → ConvertTextLockAndUnLockCommand: `ok <fields>` | `err:<class>` | `panic`
+  textconv <db> <ptimeout> <args>     → ConvertTextKeyOperateValueCommand, same output
+  textconvc <db> <ptimeout> <args>    → same, outcome class only (clock-dependent commands)
+  textresult  <result> <flag> <lockid> <lcount> <count> <lrcount> <rcount> <data|nil> → hex written | panic
+  textsresult … (same arguments)      → TextServerProtocol.WriteCommand
 -/
 namespace Driver
 open Slock.Text
@@ -34,7 +42,55 @@ def handleTextParse : List String → Option String
     pure (showHex (buildResponse (ok == "1") m r))
   | _ => none
 
+def showId : IdV → String
+  | .bytes b => showHex b
+  | .req => "req"
+  | .proto => "proto"
+  | .gen => "gen"
+
+def showHdr (h : Hdr) : String :=
+  s!"ct={h.commandType} f={h.flag} db={h.dbId} id={showId h.lockId} key={showHex h.lockKey} tf={h.timeoutFlag} t={h.timeout} ef={h.expriedFlag} e={h.expried} c={h.count} rc={h.rcount}"
+
+def showData : DataV → String
+  | .none => "nil"
+  | .raw b => showHex b
+  | .exec st h d => s!"x{st}({showHdr h} d={showData d})"
+
+def showConv (classOnly : Bool) : Conv → String
+  | .ok c => if classOnly then "ok" else s!"ok {showHdr c.hdr} d={showData c.data}"
+  | .err e => "err:" ++ e
+  | .panic => "panic"
+
+def parseResult (toks : List String) : Option ResultCmd :=
+  match toks with
+  | [r, f, id, lc, c, lrc, rc, d] => do
+    let idb ← parseHex id
+    let data ← if d == "nil" then pure none else (parseHex d).map some
+    pure { result := (← r.toNat?), flag := (← f.toNat?), lockId := idb, lcount := (← lc.toNat?), count := (← c.toNat?),
+           lrcount := (← lrc.toNat?), rcount := (← rc.toNat?), data := data }
+  | _ => none
+
+def showRender : Render → String
+  | .ok b => showHex b
+  | .panic => "panic"
+
+def handleTextCmd : List String → Option String
+  | ["lockkey", k] => do pure (showHex (convertString2LockKey Md5.sum (← parseHex k)))
+  | ["lockid", k] => do pure (showHex (convertArgId2LockId Md5.sum (← parseHex k)))
+  | ["textlock", db, pt, as] => do
+    let args ← parseList as
+    pure (showConv false (convertLock { dbId := (← db.toNat?), timeout := (← pt.toNat?), md5 := Md5.sum } args))
+  | ["textconv", db, pt, as] => do
+    let args ← parseList as
+    pure (showConv false (convertKeyOp { dbId := (← db.toNat?), timeout := (← pt.toNat?), md5 := Md5.sum } 0 args))
+  | ["textconvc", db, pt, as] => do
+    let args ← parseList as
+    pure (showConv true (convertKeyOp { dbId := (← db.toNat?), timeout := (← pt.toNat?), md5 := Md5.sum } 0 args))
+  | "textresult" :: rest => do pure (showRender (renderLockResult (← parseResult rest)))
+  | "textsresult" :: rest => do pure (showRender (renderServerResult (← parseResult rest)))
+  | _ => none
+
 def handleText (toks : List String) : Option String :=
-  handleTextParse toks
+  handleTextParse toks <|> handleTextCmd toks
 
 end Driver
